@@ -170,6 +170,94 @@ def shard_connect(sh, combos, seed):
             w.close()
 
 
+def shard_connect_threaded(sh, combos, seed):
+    """The same lookup made by the blocking client: the real GeckoSpa (baton-scheduled threads) goes
+    through its handshake with the simulator reporting each naming."""
+    from vlib import tables as T
+    from vlib.common import rng
+    from vlib.trig import TRig
+    from vlib.vthreads import Deadlock, Stuck
+
+    class Snap:
+        def __init__(self, name, c, l):
+            self.packtype, self.config_version, self.log_version = name, c, l
+            self.bytes = bytes(1024)
+            self.intouch_EN, self.intouch_CO = (88, 15, 0), (89, 11, 0)
+            self.name, self.timestamp = "synthetic", "2020-01-01 00:00:00"
+
+    for plat, name, c, l in combos:
+        r = rng("C18connectT", seed, plat, c, l)
+        try:
+            rig = TRig(r, snapshot_obj=Snap(name, c, l))
+        except Exception as e:
+            sh.inconc(f"threaded simulator could not be set up for {plat} {c}/{l}: {e!r}")
+            continue
+        try:
+            spa = rig.make_spa()
+            import contextlib
+            import io
+
+            sh.evaluations += 1
+            try:
+                with contextlib.redirect_stdout(io.StringIO()):
+                    spa.start_connect()
+                    rig.s.run_until(lambda: spa._is_connected or getattr(spa, "is_in_error", False) or getattr(spa, "new_log_class", None) is not None, 40)
+                    rig.s.sleep(0.5)
+            except (Deadlock, Stuck) as e:
+                sh.inconc(f"{type(e).__name__} while the blocking client connected to {plat} {c}/{l}")
+                continue
+            wit = {"client": "blocking", "platform": plat, "reported": [name, c, l], "thread_errors": [repr(e) for _, e in rig.s.errors][-2:]}
+            got = [getattr(spa, a, None) for a in ("new_pack_class", "new_config_class", "new_log_class")]
+            if any(g is None for g in got):
+                sh.violation(f"C18:connect:{plat}:lookup-failed", f"blocking client: a spa reporting {name} C{c} S{l} (modules {plat}, {plat}-cfg-{c}, {plat}-log-{l} are shipped) did not get its tables ({wit['thread_errors']})", wit)
+                continue
+            mods = tuple(type(g).__module__ for g in got)
+            want = (f"geckolib.driver.packs.{plat}", f"geckolib.driver.packs.{plat}-cfg-{c}", f"geckolib.driver.packs.{plat}-log-{l}")
+            if mods != want or (spa.config_version, spa.log_version) != (c, l):
+                sh.violation(f"C18:connect:{plat}:wrong-modules", f"blocking client: a spa reporting {name} C{c} S{l} was given the tables of {mods}, the naming needs {want}", wit)
+                continue
+            sh.count("blocking_connections_with_the_named_tables")
+            sh.see("platforms_connected_blocking", plat)
+        finally:
+            rig.close()
+
+
+def shard_reused_structure(sh, combos, seed):
+    """One long-lived structure object of each class is given table pair after table pair (what the
+    simulator does when another snapshot is loaded, and a client object that connects again): after
+    each build it must publish exactly the items of that pair, at that pair's layout."""
+    from geckolib.driver import GeckoAsyncStructure, GeckoStructure
+    from vlib import tables as T
+
+    async def _a(*a):
+        pass
+
+    T.install_decl_capture()
+    structs = {"GeckoStructure": GeckoStructure(lambda *a: None), "GeckoAsyncStructure": GeckoAsyncStructure(lambda *a: None, _a)}
+    for plat, c, l in combos:
+        for cname, st in structs.items():
+            sh.evaluations += 1
+            try:
+                T.load_struct(st, plat, c, l)
+                fresh = type(st)(lambda *a: None) if cname == "GeckoStructure" else type(st)(lambda *a: None, _a)
+                T.load_struct(fresh, plat, c, l)
+            except Exception as e:
+                sh.count("pairs_not_loadable_on_a_structure")
+                continue
+            wit = {"class": cname, "tables": [plat, c, l]}
+            if set(st.accessors) != set(fresh.accessors):
+                extra = sorted(set(st.accessors) - set(fresh.accessors))[:6]
+                missing = sorted(set(fresh.accessors) - set(st.accessors))[:6]
+                sh.violation(f"C18:reused-structure:{cname}:items", f"a {cname} that carried other tables before publishes other items than a fresh one for {plat} C{c} S{l} (extra {extra}, missing {missing})", wit)
+                continue
+            T.install_decl_capture()
+            diff = [t for t in fresh.accessors if (T.ref_of(st.accessors[t]).shape(), T.ref_of(st.accessors[t]).pos, T.ref_of(st.accessors[t]).labels, T.ref_of(st.accessors[t]).rw) != (T.ref_of(fresh.accessors[t]).shape(), T.ref_of(fresh.accessors[t]).pos, T.ref_of(fresh.accessors[t]).labels, T.ref_of(fresh.accessors[t]).rw)]
+            if diff or (list(st.all_outputs), list(st.user_demands)) != (list(fresh.all_outputs), list(fresh.user_demands)):
+                sh.violation(f"C18:reused-structure:{cname}:layout", f"a reused {cname} publishes a different layout for {plat} C{c} S{l}: {diff[:6]}", wit)
+                continue
+            sh.count("builds_on_a_reused_structure")
+
+
 def compare_pin(run: Run, lay, pin):
     fields = ("cls", "pos", "type", "bitpos", "items", "size", "maxitems", "rw", "pub_pos", "pub_length", "pub_format", "pub_bitpos", "pub_bitmask", "pub_items", "pub_rw", "pub_tag")
     for stem, prec in pin.items():
@@ -258,6 +346,21 @@ def main(tier, seed):
         args = [(p_, lay[p_]["table"].get("name"), c_, l_) for p_, c_, l_ in allc]
         res = run_shards("checks.c18", "shard_connect", [{"combos": args[i::NCPU], "seed": seed} for i in range(NCPU) if args[i::NCPU]], timeout=3000)
         run.absorb(res)
+        # the blocking client's lookup: every platform at least once (thorough: 300 combinations)
+        byplat = {}
+        for a in args:
+            byplat.setdefault(a[0], a)
+        every = sorted(tables.combos(), key=lambda x: (x[1], x[2], x[0]))
+        for p_, c_, l_ in every:
+            byplat.setdefault(p_, (p_, lay[p_]["table"].get("name"), c_, l_))
+        targs = sorted(byplat.values()) + (args[:24] if tier == "quick" else [(p_, lay[p_]["table"].get("name"), c_, l_) for p_, c_, l_ in every[::3]])
+        run.absorb(run_shards("checks.c18", "shard_connect_threaded", [{"combos": targs[i::NCPU], "seed": seed} for i in range(NCPU) if targs[i::NCPU]], timeout=3000))
+        rr2 = rng("C18reuse", seed)
+        order = list(every)
+        rr2.shuffle(order)
+        if tier == "quick":
+            order = order[:320]
+        run.absorb(run_shards("checks.c18", "shard_reused_structure", [{"combos": order[i::NCPU], "seed": seed} for i in range(NCPU) if order[i::NCPU]], timeout=3000))
         if tier == "thorough":
             rederive_pin(run, pin)
         run.count("modules", len(lay))
@@ -268,6 +371,8 @@ def main(tier, seed):
         run.need(run.counters.get("items", 0) >= 20000, "fewer than 20000 items enumerated")
         run.need(run.counters.get("pinned_items_compared", 0) >= 20000, "fewer than 20000 pinned items compared")
         run.need(run.counters.get("connections_with_the_named_tables", 0) >= 100, "too few real connections through the module lookup")
+        run.need(len(run.sets.get("platforms_connected_blocking", ())) >= len(byplat) - 1, "the blocking client's lookup was not exercised for most platforms")
+        run.need(run.counters.get("builds_on_a_reused_structure", 0) >= 300, "too few builds on long-lived structure objects")
     return run.finish(
         rule="every item of every table module in the working tree is enumerated (finite space, complete); a case is one (module,item) pair checked against the structural rules and, for pinned modules, field-by-field against the pinned layout; distinct = distinct (module,item) pairs",
         assumptions=["pins/layout-236b7b1.json.gz is the layout of the audited commit (re-derived from git in the thorough tier)", "declarations captured by wrapping GeckoStructAccessor.__init__ from the harness"],
